@@ -24,7 +24,8 @@ def relevant(pid, desc, safety_owner):
 class KaniProp:
     def __init__(self, package, instances_fn, safety_owner, shims=("memchr",), small=True,
                  functions=(), assumptions=(), outside=(), extra_args=(), quick_cap_s=1500,
-                 thorough_cap_s=3 * 3600, mem_cap_gb=12, test_path="verif::replay::run"):
+                 thorough_cap_s=3 * 3600, mem_cap_gb=12, test_path="verif::replay::run", selftest=False):
+        self.selftest = selftest
         self.package = package
         self.instances_fn = instances_fn
         self.safety_owner = safety_owner
@@ -57,17 +58,22 @@ class KaniProp:
             sc.close()
 
     def _run(self, pid, tier, seed, args, sc, all_insts, mine, t0):
-        fams = {}
-        for i in all_insts:
-            fams.setdefault(i.family, []).append(i)
-        for fam, insts in fams.items():
-            sc.write_gen(fam + ".rs", matcher_props.gen_text(insts))
+        self.gen_meta = matcher_props.write_gen(sc, tier)
+        self.oracle_ok = 0
+        if self.selftest:
+            n = engine.oracle_selftest(sc, self.package, small=self.small)
+            if n is None:
+                print("INCONCLUSIVE: the oracle disagrees with the expectations of the repository's own test suite")
+                self._evidence(pid, tier, seed, mine, {}, t0, 0, ["oracle selftest failed"], [])
+                return 2
+            self.oracle_ok = n
+            log("[%s] oracle validated against %d vectors of the repo's test suite" % (pid, n))
         jobs = args.jobs or min(engine.NCPU, len(mine))
         cap = self.quick_cap_s if tier == "quick" else self.thorough_cap_s
         names = [i.name for i in mine]
         log("[%s] %d harness instances, -j %d, cap %ds" % (pid, len(names), jobs, cap))
         try:
-            results, wall, logp = engine.run_kani(sc, self.package, names, jobs, cap, small=self.small,
+            results, wall, logp = engine.run_kani(sc, self.package, mine, jobs, cap, small=self.small,
                                                   extra_args=self.extra_args, mem_cap_gb=self.mem_cap_gb)
         except engine.BuildError as e:
             print("BUILD-ERROR (inconclusive):\n%s" % e)
@@ -87,6 +93,12 @@ class KaniProp:
             if not endc or any(v != "SATISFIED" for v in endc):
                 inconclusive.append("%s: harness end not reachable (vacuous assumptions?)" % inst.name)
                 continue
+            eng = [d for (d, l, i) in r.failed if d.startswith("ENGINE")]
+            if eng:
+                inconclusive.append("%s: %s" % (inst.name, eng[0]))
+                continue
+            if not any(k.startswith("ENGINE Vec::push stub") or True for k in [1]):
+                pass
             rel = [(d, l, i) for (d, l, i) in r.failed if relevant(pid, d, self.safety_owner)
                    and not any(n in d for n in ENGINE_NOISE)]
             if not rel:
@@ -106,7 +118,7 @@ class KaniProp:
         cov_all = {}
         for inst in mine:
             for k, v in results[inst.name].covers.items():
-                if k.startswith("END"):
+                if k.startswith("END") or k.startswith("INFO"):
                     continue
                 cov_all[k] = cov_all.get(k, False) or (v == "SATISFIED")
         unsat_covers = [k for k, v in cov_all.items() if not v]
@@ -168,15 +180,10 @@ class KaniProp:
         rec = json.load(open(path))
         sc = engine.Scratch("replay", shims=self.shims)
         try:
-            insts = matcher_props.all_instances("quick")
-            fams = {}
-            for i in insts:
-                fams.setdefault(i.family, []).append(i)
-            have = False
-            for fam, ii in fams.items():
-                if fam == rec["family"] and not any(i.name == rec["harness"] for i in ii):
-                    ii.append(matcher_props.Inst(rec["harness"], rec["unwind"], rec["expr"], [rec["property"]], rec.get("bounds", {}), fam))
-                sc.write_gen(fam + ".rs", matcher_props.gen_text(ii))
+            extra = []
+            if rec.get("family"):
+                extra.append(matcher_props.Inst(rec["harness"], rec["unwind"], rec["expr"], [rec["property"]], rec.get("bounds", {}), rec["family"]))
+            matcher_props.write_gen(sc, "quick", extra)
             bad = False
             for profile in ("dev", "release"):
                 res, out = engine.native_replay(sc, rec["package"], rec["harness"], rec["tape"], profile,
@@ -219,6 +226,8 @@ class KaniProp:
                     "(assumptions not vacuous) and it ran to a verdict",
             "samples": samples,
             "harness_instances": len(mine),
+            "traces_validated_against_impl": getattr(self, "oracle_ok", 0),
+            "generated_reference": getattr(self, "gen_meta", None),
             "functions_encoded": self.functions,
             "bounds": sorted({json.dumps(i.bounds, sort_keys=True) for i in mine}),
             "outside_bounds": self.outside,
@@ -260,12 +269,74 @@ FUZZY_OUT = ["haystacks longer than the per-tier H bound and needles longer than
              "real-geometry DP runs (claimed via small geometry + layout lemma)"]
 
 fuzzy = KaniProp("nucleo-matcher", matcher_props.fuzzy_instances, "C10", functions=FUZZY_FUNCS,
-                 assumptions=MATCHER_ASSUME, outside=FUZZY_OUT)
+                 assumptions=MATCHER_ASSUME, outside=FUZZY_OUT, selftest=True)
+
+CHARS_FUNCS = ["chars::to_lower_case", "chars::is_upper_case", "chars::normalize (tables LATIN_1AB, LATIN_EXTENDED_ADDITIONAL, SUPERSCRIPTS_AND_SUBSCRIPTS)",
+               "<char as Char>::{normalize, char_class, char_class_and_normalize}", "<AsciiChar as Char>::*", "char_class_non_ascii", "CASE_FOLDING_SIMPLE"]
+chars = KaniProp("nucleo-matcher", matcher_props.chars_instances, "C16", functions=CHARS_FUNCS,
+                 assumptions=["Unicode oracle: Python's unicodedata (simple case folding derived from str.casefold()/lower(); NFKD); code points unassigned in that UCD version are outside the folding comparison",
+                              "the list of documented normalization blocks is read from the doc comment of chars::normalize in the current tree",
+                              "std's char::is_lowercase/is_numeric/is_alphabetic/is_whitespace are environment (executed symbolically as compiled)"],
+                 outside=["code points unassigned in the reference UCD (folding comparison only)"])
+
+EXACT_FUNCS = ["Matcher::{substring,prefix,postfix,exact}_{match,indices}", "Matcher::substring_match_impl", "Matcher::exact_match_impl",
+               "Matcher::substring_match_1_ascii", "Matcher::substring_match_ascii", "Matcher::substring_match_ascii_with_prefilter",
+               "Matcher::calculate_score", "Utf32Str::{leading,trailing}_white_space", "Config::bonus_for"]
+exact = KaniProp("nucleo-matcher", matcher_props.exact_instances, "C10", functions=EXACT_FUNCS,
+                 assumptions=MATCHER_ASSUME + ["U+000B excluded from the alphabets (std's byte and char whitespace predicates disagree on it; the statement does not say which is meant)"],
+                 outside=["haystacks / needles beyond the per-tier bounds", "non-ASCII representations (see the *_uni instances)"], selftest=True)
+
+
+def fuzzy_exact_instances(tier):
+    return matcher_props.fuzzy_instances(tier) + matcher_props.exact_instances(tier)
+
+
+both = KaniProp("nucleo-matcher", fuzzy_exact_instances, "C10", functions=FUZZY_FUNCS + EXACT_FUNCS,
+                assumptions=exact.assumptions, outside=FUZZY_OUT, selftest=True)
+
+
+class Multi:
+    """A property decided by several engines/harness families: runs each, merges verdict and evidence."""
+    def __init__(self, parts):
+        self.parts = parts
+
+    def run(self, pid, tier, seed, args):
+        import json
+        rcs = []
+        merged = None
+        t0 = time.time()
+        for part in self.parts:
+            rc = part.run(pid, tier, seed, args)
+            rcs.append(rc)
+            ev = json.load(open(VERIF + "/evidence/%s.json" % pid))
+            if merged is None:
+                merged = ev
+            else:
+                c, d = merged["coverage"], ev["coverage"]
+                for k in ("evaluations", "distinct_nontrivial", "harness_instances", "solver_time_s", "traces_validated_against_impl"):
+                    c[k] = c.get(k, 0) + d.get(k, 0)
+                for k in ("samples", "functions_encoded", "bounds", "outside_bounds", "inconclusive", "covers_never_satisfied", "known_findings_reproduced"):
+                    c[k] = list(c.get(k, [])) + [x for x in d.get(k, []) if x not in c.get(k, [])]
+                merged["assumptions"] = list(merged["assumptions"]) + [a for a in ev["assumptions"] if a not in merged["assumptions"]]
+                merged["violations"] += ev["violations"]
+        merged["wall_s"] = round(time.time() - t0, 1)
+        json.dump(merged, open(VERIF + "/evidence/%s.json" % pid, "w"), indent=1)
+        if 1 in rcs:
+            return 1
+        if 2 in rcs:
+            return 2
+        return 0
+
+    def replay(self, path):
+        return self.parts[0].replay(path)
+
 
 PROPS = {
-    "C01": fuzzy,
-    "C02": fuzzy,
-    "C03": fuzzy,
-    "C04": fuzzy,
-    "C10": fuzzy,
+    "C05": exact,
+    "C16": chars,
+    "C01": both,
+    "C02": both,
+    "C03": both,
+    "C04": both,
+    "C10": both,
 }
